@@ -12,8 +12,10 @@ user list), because the importer takes a different path when the document carrie
 (NaN in the model dictionary), exact zeros, des-branch models.  The oracles compare cell by cell (NaN equals NaN only, None equals None
 only), the identifier, and the second export byte for byte.  The Lean side: `Scalar.nan`, the step-by-step reader `decodeFrame`
 (table with absent key -> missing cell, only the `branch` column rewritten) run on the same real documents as `decode`.
-Measured domain restriction (unchanged tree): a table whose pressures are ALL missing and whose points are all adsorption is written
-without any branch key and cannot be read back (`idxmax` of an all-NaN column raises ValueError) — the generator keeps at least one pressure.
+A table with NO pressure recorded at any point is part of this (random draws in `isogen.punch_missing` plus, every 27th content, one
+built here with the branch layouts taken in turn): with all points adsorption the document carries no branch key and the reader guesses
+the marks — S54-C06 (repaired in the repository: `split_ads_data` let pandas' ValueError of `idxmax` on an all-missing column through, so
+the library could not read its own document).  Such cases carry `no_pressure_recorded: true` in their signature.
 """
 import json
 import os
@@ -37,8 +39,13 @@ def run(ck):
     lines, plan = [], []
     try:
         for i in range(n):
-            c = isogen.content(rng, missing=(i % 9) in (1, 3, 5, 7))
+            no_p = i % 27 == 7               # (7 mod 9: a content with gaps) a point table without any recorded pressure, layouts in turn
+            c = isogen.content(rng, kind="point" if no_p else None, missing=(i % 9) in (1, 3, 5, 7))
+            if no_p:
+                _no_pressure(c, i // 27)
             sig = {"class": c["kind"]}
+            if c["kind"] == "point" and all(isinstance(x, float) and x != x for x in c["pressure"]):
+                sig["no_pressure_recorded"] = True
             if c.get("missing"):
                 sig["gaps"] = sorted({g.split(":")[0] for g in c["missing"]})
             try:
@@ -90,6 +97,8 @@ def run(ck):
                 ck.count(("gaps", i), nontrivial=False, bucket="gaps:" + (f"point, layout {sig['layout']}" if c["kind"] == "point" else "model"))
                 for g in sig["gaps"]:
                     ck.count(("gap-kind", g, i), nontrivial=False, bucket="gaps in: " + g)
+                if sig.get("no_pressure_recorded"):
+                    ck.count(("no-pressure", i), nontrivial=False, bucket="no pressure recorded, layout " + sig["layout"])
             # the isotherm is not modified by exporting it
             if _diff(before, _observe(pg, iso)) or iso.iso_id != id0:
                 ck.fail_case({**sig, "clause": "export modified the isotherm"}, {"content": _short(c)})
@@ -240,7 +249,7 @@ def run(ck):
     ck.cov["rule"] = ("seeded isotherm contents: metadata-only / point / model, all unit configurations (relative modes, fraction/percent, °C), metadata from a JSON-value grammar (unicode, number-, bool- and None-looking text, "
                       "ints up to 1e12, floats incl. ±0.0 / 1e-320 / 1.8e308, bools, None, flat lists, material dictionaries), 1-40 points with ads-only / two-branch / des-only / user-assigned marks and numeric, integer and text extra "
                       "columns, all 16 models; string and file targets, method and function; 4 of 9 contents with missing values (NaN in extra numeric columns / pressure / loading, None in text and flag "
-                      "columns, whole columns missing; models without fit error / ranges, exact zeros, des-branch models) crossed with every branch layout; every model kind as fitted from two-branch data; "
+                      "columns, whole columns missing incl. the pressure column — no pressure recorded at any point —; models without fit error / ranges, exact zeros, des-branch models) crossed with every branch layout; every model kind as fitted from two-branch data; "
                       "content observed through to_dict() and through the attributes; distinct = distinct generated content")
     ck.assumptions += ["python json module and pandas DataFrame.from_dict / to_dict", "Lean.Data.Json parser inside the driver"]
     _attributes_section(ck, pg)         # E17 (new block below)
@@ -330,6 +339,15 @@ def _diff(a, b):
         if not isogen.same_value(aa.get(k, "<absent>"), ab.get(k, "<absent>")):
             out.append((f"attribute {k}", repr(aa.get(k, "<absent>"))[:200], repr(ab.get(k, "<absent>"))[:200]))
     return out
+
+
+def _no_pressure(c, k):
+    """Turn a point content into a table in which no pressure was recorded at any point (every cell of the column missing), with the
+    branch layout number `k` of ads / des / two / user (order of the pressures is immaterial here, so any marks are a valid layout)."""
+    n = len(c["pressure"])
+    c["pressure"] = [isogen.NAN] * n
+    c["branch"] = [[0] * n, [1] * n, [0] * (n - n // 2) + [1] * (n // 2), [(j + 1) % 2 for j in range(n)]][k % 4]
+    c["missing"] = [g for g in c.get("missing", []) if not g.startswith("pressure:")] + ["pressure:all"]
 
 
 def _layout(marks):
